@@ -146,6 +146,7 @@ def main():
     ap.add_argument("--prop")
     ap.add_argument("--runs", type=int)
     ap.add_argument("--skip-suite", action="store_true")
+    ap.add_argument("--expect-silent", action="store_true")
     a = ap.parse_args()
     work = "/dev/shm/bbsim_mut.%d" % os.getpid()
     report = {}
@@ -154,7 +155,8 @@ def main():
     try:
         jobs = []
         if a.patch:
-            jobs.append((os.path.basename(os.path.dirname(os.path.abspath(a.patch))) or "patch", a.prop, a.patch, True))
+            jobs.append((os.path.basename(os.path.dirname(os.path.abspath(a.patch))) or "patch", a.prop, a.patch,
+                         not a.expect_silent))
         else:
             for name, prop, edits in MUTANTS:
                 jobs.append((name, prop, edits, True))
